@@ -113,3 +113,57 @@ def with_scramble(case):
         h = int(h64(jsonable(case)), 16)
         case['scr'] = (h >> 8) % 100000 if h % 2 == 0 else None
     return case
+
+
+# ------------------------------------------------------------------ the repository's own tests as one more workload
+class _RepoTestPlugin(object):
+    """pytest plugin: names the running test as the recorder's current case and seeds `random` per test
+    (the tests draw unseeded random automata; a deterministic seed makes a witness replayable)"""
+
+    def __init__(self, rec, seed, fixed_seed=None):
+        self.rec = rec
+        self.seed = seed
+        self.fixed_seed = fixed_seed
+        self.outcomes = {}
+
+    def pytest_runtest_setup(self, item):
+        import random
+        from vt.rec import h64
+        s = int(h64([self.seed, item.nodeid]), 16) % (2 ** 31) if self.fixed_seed is None else self.fixed_seed
+        random.seed(s)
+        self.rec.case = {'cls': 'repo_test', 'nodeid': item.nodeid, 'random_seed': s}
+
+    def pytest_runtest_logreport(self, report):
+        if report.when == 'call' or (report.when == 'setup' and report.outcome != 'passed'):
+            self.outcomes[report.nodeid] = report.outcome
+
+
+def run_repo_tests(rec, seed=0, nodeid=None, cpu=900, fixed_seed=None):
+    """runs the repository's own test suite IN THIS INTERPRETER, i.e. with the contracts of the calling driver attached:
+    every library call the tests make goes through the same monitors as the generated workload. A failing TEST is not a
+    verdict of ours (counted only); what counts is what the monitors observe."""
+    import pytest
+    tests = os.path.join(env.REPO, 'tests')
+    if not os.path.isdir(tests):
+        rec.counters['repo_tests_missing'] += 1
+        return
+    plug = _RepoTestPlugin(rec, seed, fixed_seed)
+    args = ['-q', '-p', 'no:cacheprovider', '--no-header', '-W', 'ignore', '--rootdir', env.REPO]
+    args.append(nodeid if nodeid else tests)
+    before = rec.evaluations
+    cwd = os.getcwd()
+    try:
+        os.chdir(env.REPO)
+        with captured():
+            with cpu_guard(cpu):
+                pytest.main(args, plugins=[plug])
+    except CaseTimeout:
+        rec.inconc('the repository tests under the monitors did not finish within %d s of CPU time' % cpu)
+    except BudgetExceeded:
+        rec.counters['repo_tests_budget_exceeded'] += 1
+    finally:
+        os.chdir(cwd)
+    for k, v in plug.outcomes.items():
+        rec.counters['repo_test_' + v] += 1
+    rec.counters['repo_tests_monitor_evaluations'] += rec.evaluations - before
+    rec.classes['repo_test'] += len(plug.outcomes)
